@@ -22,7 +22,7 @@ import (
 )
 
 // identity kinds of a server
-var identities = []string{"genuine", "genuine-second-ca", "foreign-ca", "self-signed", "expired", "not-yet-valid", "wrong-name", "name-of-first-endpoint", "system-pool-only", "dns-name-only"}
+var identities = []string{"genuine", "issued-by-second-ca", "foreign-ca", "self-signed", "expired", "not-yet-valid", "wrong-name", "name-of-first-endpoint", "system-pool-only", "dns-name-only"}
 var protocols = []string{"tls12+", "tls12-only", "tls13-only", "tls10-11-only"}
 var clientPolicies = []string{"none", "request", "require-any", "require-verify", "require-any-other-ca-hint"}
 
@@ -32,8 +32,19 @@ type variant struct {
 	Client   string `json:"client_cert_policy"`
 }
 
-func (v variant) genuine() bool {
-	return (v.Identity == "genuine" || v.Identity == "genuine-second-ca") && v.Protocol != "tls10-11-only"
+// genuine: the server chains to a CA of THIS configuration's bundle (CA 2 is in two of the three bundles),
+// matches the endpoint address, is currently valid and speaks TLS >= 1.2.
+func (v variant) genuine(bundle string) bool {
+	switch v.Identity {
+	case "genuine":
+	case "issued-by-second-ca":
+		if bundle == "one-file-one-ca" {
+			return false
+		}
+	default:
+		return false
+	}
+	return v.Protocol != "tls10-11-only"
 }
 
 type caseRec struct {
@@ -96,9 +107,6 @@ func main() {
 				if rng.Intn(3) == 0 {
 					v.Identity = "genuine"
 				}
-				if v.Identity == "genuine-second-ca" && bname == "one-file-one-ca" {
-					v.Identity = "foreign-ca" // CA 2 is not configured in this bundle
-				}
 				if v.Identity == "name-of-first-endpoint" && k == 0 {
 					v.Identity = "wrong-name"
 				}
@@ -126,7 +134,7 @@ func judge(r *ev.Run, c *ev.Case, rec caseRec, bundle []string, clientCert, clie
 		switch v.Identity {
 		case "genuine":
 			cert = ca1.Issue(caserver.Leaf{CN: "crypki", IPs: []string{ip}})
-		case "genuine-second-ca":
+		case "issued-by-second-ca":
 			cert = ca2.Issue(caserver.Leaf{CN: "crypki", IPs: []string{ip}})
 		case "foreign-ca":
 			cert = foreign.Issue(caserver.Leaf{CN: "crypki", IPs: []string{ip}})
@@ -204,7 +212,7 @@ func judge(r *ev.Run, c *ev.Case, rec caseRec, bundle []string, clientCert, clie
 	rec.Result = fmt.Sprintf("certs=%d err=%v", len(certs), serr)
 	firstGenuine := -1
 	for k, v := range vars {
-		if v.genuine() {
+		if v.genuine(rec.Bundle) {
 			firstGenuine = k
 			break
 		}
@@ -217,7 +225,7 @@ func judge(r *ev.Run, c *ev.Case, rec caseRec, bundle []string, clientCert, clie
 	for k, s := range servers {
 		v := vars[k]
 		calls := s.Calls()
-		if len(calls) > 0 && !v.genuine() {
+		if len(calls) > 0 && !v.genuine(rec.Bundle) {
 			r.Violation(c, "rpc-handled-by-non-genuine-server:"+v.Identity+"/"+v.Protocol, fmt.Sprintf("server #%d (%s, %+v) handled the signing request", k, list[k], v), rec)
 			return
 		}
@@ -235,7 +243,7 @@ func judge(r *ev.Run, c *ev.Case, rec caseRec, bundle []string, clientCert, clie
 			}
 		}
 		// handshakes completed with a genuine server that requested a certificate must carry it too
-		if v.genuine() && v.Client != "none" {
+		if v.genuine(rec.Bundle) && v.Client != "none" {
 			for _, h := range s.Handshakes() {
 				if len(h.PeerCerts) == 0 || !bytes.Equal(h.PeerCerts[0], client.Certificate[0]) {
 					r.Violation(c, "configured-client-certificate-not-presented:"+v.Client, fmt.Sprintf("handshake with server #%d carried %d peer certificates", k, len(h.PeerCerts)), rec)
